@@ -71,12 +71,13 @@ Qed.
 
 Lemma retry_pi visit new_elem cr :
   (forall e e' h, visit e = Ok (e', h) -> pairwise_incomparable (at_addrs h) = true) ->
-  forall f es es' hs, retry_loop visit new_elem cr f es = Ok (es', hs) -> pairwise_incomparable (at_addrs hs) = true.
+  forall f app es es' hs, retry_loop visit new_elem cr app f es = Ok (es', hs) -> pairwise_incomparable (at_addrs hs) = true.
 Proof.
-  intros Hv. induction f as [|f IH]; intros es es' hs R; cbn in R; [discriminate|].
+  intros Hv. induction f as [|f IH]; intros app es es' hs R; cbn in R; [discriminate|].
   destruct (visit_elems visit 0 es) as [[e1 g1]| | |] eqn:V; cbn in R; try discriminate.
   assert (P : pairwise_incomparable (at_addrs g1) = true) by (eapply visit_elems_pi; eauto).
-  destruct g1; [|inv R; auto]. destruct cr; [eapply IH; eauto|inv R; auto].
+  destruct g1; [|inv R; auto]. destruct cr; [|inv R; auto].
+  destruct app; cbn in R; try discriminate; eapply IH; eauto.
 Qed.
 
 Section Disjoint.
@@ -124,9 +125,9 @@ Section Disjoint.
             destruct (matches r (enc x)); [eapply IH; eauto|inv Hx; reflexivity]. }
         destruct n as [t s v0|kvs|es].
         * destruct (is_null _); [|discriminate].
-          destruct (retry_loop _ _ _ _ _) as [[es1 h1]| | |]; cbn -[detach] in H; inv H. rewrite at_addrs_detach. reflexivity.
+          destruct (retry_loop _ _ _ _ _ _) as [[es1 h1]| | |]; cbn -[detach] in H; inv H. rewrite at_addrs_detach. reflexivity.
         * discriminate.
-        * destruct (retry_loop _ _ _ _ es) as [[es1 h1]| | |] eqn:R; cbn in H; inv H.
+        * destruct (retry_loop _ _ _ _ _ es) as [[es1 h1]| | |] eqn:R; cbn in H; inv H.
           eapply retry_pi; [|exact R]. exact Hv.
       + destruct n as [t s v|kvs|es].
         * destruct (is_null _); inv H; reflexivity.
